@@ -21,6 +21,22 @@ CLAIMED["C15"] = dict(
    technique="symbolic execution of go/ssa + SMT, three-run relational harness",
    ref="DESIGN.md §5 C15")
 
+CLAIMED["C01"] = dict(
+   text="Bounded model checking of panic freedom through the public API: for each of ~130 program templates (one per opcode, builtin and method, 1-3 operands) the real parser and VM are executed symbolically with the operands ranging over every script value kind and 64-bit / Float64 payloads as solver symbols; every Go panic site (type assertion, index, slice bounds, nil dereference, division, make) on every feasible path is a verification condition, observers (ToString, ToRepr, detail text twice, bytecode listing, Matched/RestInput) included; capacity boundaries (nesting 19..22, 511..513 elements, code cap, parse budget, recursion under an op budget) as concrete programs. A panic is reported only after native replay of the solver's model.",
+   note="Quick: scalar operand kinds, no prior-state run; thorough: containers/computed/function operands (depth 1, <=2 elements) and a second Run on the same VM. Loops with symbolic trip count unrolled 3 times, symbolic-size allocations followed to 8 elements (cuts counted in evidence). Source text is concrete per template (symbolic source text: see C16/C19 harnesses). Dice are Roll-contract values (C05). Float text rendering is opaque. Hangs are reported as step-limit aborts (reduced), not as violations.",
+   technique="symbolic execution of go/ssa (parser + VM) + SMT panic-site VCs",
+   ref="DESIGN.md §5 C01")
+CLAIMED["C06"] = dict(
+   text="(1) Provenance as a footprint claim: 40 programs covering every dice family, the random array methods and every calling context (function, computed value, template hole, container, condition, loop, default-sides expression) run on a seeded VM with the generator stubbed; on every path every generator output is logged with its receiver and must come from the context's generator, none from the package generator. (2) For all 128-bit generator states (two 64-bit symbols) GetCurSeed / Seed / Init round-trip the state exactly (x/exp/rand's Marshal/UnmarshalBinary interpreted). (3) Result and process text are compared under two opposite Go-map iteration orders.",
+   note="PCG's step function is not encoded (equal states give equal futures because Uint64 is a function of the state). Dice values are fixed low faces in (1): provenance does not depend on values. Known findings recorded: dict enumeration / printing order follows Go map order.",
+   technique="symbolic execution of go/ssa + SMT; draw-receiver footprint; map-order relational run",
+   ref="DESIGN.md §5 C06")
+CLAIMED["C12"] = dict(
+   text="Sequential half: (a) inductive step — from every representation state over two keys satisfying the ValueMap invariant (read/dirty/expunged/amended/misses) one operation of each kind (Store, Load, LoadOrStore, LoadAndDelete, Delete, Clear, Range, Range-with-stop, Length) with key in {a,b,c} gives the results of the abstract map and re-establishes the invariant, which covers histories of any length; (b) all operation sequences of length 3 (quick) / 4 (thorough) over 3 keys from the empty map against a Go map.",
+   note="The concurrent half (linearizability under real interleavings) is NOT claimed: schedule exploration is outside what the engine does (sync/atomic are modelled sequentially). misses is a solver symbol; values are distinct pointers. Trusted: INV_map as written in the harness (cross-checked by (b)).",
+   technique="symbolic execution of go/ssa; inductive invariant step + bounded history enumeration",
+   ref="DESIGN.md §5 C12")
+
 NA = {
 }
 
